@@ -20,8 +20,8 @@ def _sh(cmd, cwd=None, env=None, timeout=3600):
     return p.returncode, p.stdout + p.stderr
 
 
-def judge(mid, tier="quick", keep_output=False):
-    d = os.path.join(SEEDED, mid)
+def judge(mid, tier="quick", keep_output=False, root=None):
+    d = os.path.join(root or SEEDED, mid)
     meta = json.load(open(os.path.join(d, "meta.json")))
     prop = meta["property"]
     wt = tempfile.mkdtemp(prefix="infocf-verif-mut-")
@@ -66,3 +66,24 @@ def main(argv):
                 missed.append(mid)
     print("selftest-mutants: %d changes, %d missed %s, %d errors %s" % (len(ids), len(missed), missed, len(errors), errors))
     return 0 if not missed and not errors else 1
+
+
+NEUTRAL = os.path.join(VERIF, "neutral")
+
+
+def main_neutral(argv):
+    """False-alarm control: behaviour-preserving changes under /verif/neutral/<id>/ must leave the
+    check of their property silent (exit 0)."""
+    tier = "thorough" if "--thorough" in argv else "quick"
+    ids = [a for a in argv if not a.startswith("-")] or sorted(x for x in os.listdir(NEUTRAL) if os.path.isfile(os.path.join(NEUTRAL, x, "patch.diff")))
+    alarms, errors = [], []
+    for mid in ids:
+        r = judge(mid, tier=tier, keep_output=True, root=NEUTRAL)
+        print(json.dumps(r))
+        sys.stdout.flush()
+        if r.get("error") or r.get("rc") == 2:
+            errors.append(mid)
+        elif r.get("rc") != 0:
+            alarms.append(mid)
+    print("selftest-neutral: %d behaviour-preserving changes, %d false alarms %s, %d harness errors %s" % (len(ids), len(alarms), alarms, len(errors), errors))
+    return 0 if not alarms and not errors else 1
